@@ -31,6 +31,10 @@ THEOREMS = [
     "C04.resubscribe_same_pair",
     "C04.opdef_framed",
     "C04.opdef_resubscribe_same",
+    "C04.retry_framed",
+    "C04.repeat_framed",
+    "C04.retry_fresh",
+    "C04.repeat_fresh",
     "C04.zip_asis_not_resubscribable",
     "C04.zip_asis_not_framed",
 ]
@@ -58,7 +62,7 @@ def regenerate():
 
 # =============================================================================== frame cases
 DOM = [0, 1, 2, 3]
-SYSTEMS = ["take", "skip", "scan", "map_indexed", "zip_with_iterable", "distinct_until_changed", "take_while", "pairwise"]
+SYSTEMS = ["take", "skip", "scan", "map_indexed", "zip_with_iterable", "distinct_until_changed", "take_while", "pairwise", "retry", "repeat"]
 
 
 def gen_tab(rng, args, results, p_raise=0.08):
@@ -95,13 +99,17 @@ def gen_acts(rng, nsub, nev):
 
 
 def gen_frame_cases(rng, tier):
-    n = fw.tier_scale(tier, 700, 7000)
+    n = fw.tier_scale(tier, 1200, 9000)
     for _ in range(n):
         sysn = rng.choice(SYSTEMS)
         nev = rng.choice([3, 6, 10, 16])
         c = {"op": "frame_run", "sys": sysn, "acts": gen_acts(rng, rng.choice([2, 2, 3, 4]), nev)}
         if sysn in ("take", "skip"):
             c["count"] = rng.choice([1, 1, 2, 3, 5])
+        elif sysn in ("retry", "repeat"):
+            c["count"] = rng.choice([1, 2, 2, 3, None])
+            # more terminals, so that the budget is used up
+            c["acts"] = [a if a[0] == "c" or rng.random() < 0.6 else ["a", a[1], rng.choice([["E", "s0"], ["C"]])] for a in c["acts"]]
         elif sysn == "scan":
             c["accumulator"] = gen_tab(rng, [(a, x) for a in DOM for x in DOM], DOM)
             if rng.random() < 0.5:
@@ -143,6 +151,10 @@ def _build_op(case):
         return ops.take_while(lambda x: f(x), case["inclusive"])
     if s == "pairwise":
         return ops.pairwise()
+    if s == "retry":
+        return ops.retry(case["count"])
+    if s == "repeat":
+        return ops.repeat(case["count"])
     raise ValueError(s)
 
 
@@ -153,13 +165,15 @@ def _drive(case, acts):
 
     observers = {}
     cur = [None]
+    out = []
 
     def subscribe(observer, scheduler=None):
+        if cur[0] in observers:  # the operator subscribes the source again for the same downstream subscription
+            out.append([cur[0], ["R"]])
         observers[cur[0]] = observer
         return Disposable()
 
     o = rx.Observable(subscribe).pipe(_build_op(case))
-    out = []
     for a in acts:
         if a[0] == "c":
             i = a[1]
@@ -171,6 +185,7 @@ def _drive(case, acts):
             obs = observers.get(i)
             if obs is None:
                 continue
+            cur[0] = i  # a re-subscription made while handling this event belongs to subscription i
             if n[0] == "N":
                 obs.on_next(fw.dec(n[1]))
             elif n[0] == "E":
@@ -710,10 +725,10 @@ LEVEL_TEXT = ("Lean: `captures_cold_ok` (kernel `decide` over the capture table 
               "reactivex/__init__.py on this run: no mutable object created above the subscription level is mutated/consumed at or below it or "
               "escapes into an observable/operator constructor) and the frame theorem `resubscribe_same` (for any model whose built-time state is "
               "never written, any number of sequential or overlapping subscriptions, under any interleaving, each emit what a single subscription "
-              "emits from its own relative events), instantiated for a catalogue of eight stateful operators whose models are run against the real "
+              "emits from its own relative events), instantiated for a catalogue of ten stateful operators (incl. retry/repeat with their per-subscription budgets: `retry_fresh`, `repeat_fresh`) whose models are run against the real "
               "operators; plus the decided counter-example for the pre-fix zip_with_iterable. Dynamic oracle: generated cold pipelines subscribed "
               "2-3 times sequentially/overlapping must deliver the same relative notifications.")
 LEVEL_NOTE = ("The theorem is about the abstract frame model; that the real operators satisfy its hypothesis is the capture table (a syntactic, "
               "fail-closed AST analysis with stated classification rules, an allow-list of 8 justified entries and the multicasting files excluded as the "
-              "property says) plus the resubscription oracle; only eight operators have executable models run against the code. Needs the fix patches "
+              "property says) plus the resubscription oracle; only ten operators have executable models run against the code. Needs the fix patches "
               "fixes/C04_*.patch and the C41 from_callback fix: on the unfixed tree the check reports VIOLATION with a resubscription replay.")
